@@ -588,6 +588,12 @@ func cmdCheck(args []string) int {
 		phases = []k.Engine{eng, k.EngineByName("P")}
 		shares = []float64{0.85, 0.15}
 	}
+	if *prop == "C19" {
+		// where a resolved poll address ends up inside the transport (which listener gets the bytes, what a
+		// full or absent listener does to the hand-off) is decided by the transport engine
+		phases = []k.Engine{eng, k.EngineByName("P")}
+		shares = []float64{0.85, 0.15}
+	}
 	if *prop == "C18" {
 		// what reaches the poll transport comes from the production sender: the kernel engine adds the
 		// hand-off itself (address and bytes as the transport holds them until a listener takes them)
@@ -1152,8 +1158,8 @@ func cmdSelftest(args []string) int {
 		if p == "C16" || p == "C18" {
 			list = append(list, p+"/K")
 		}
-		if p == "C13" {
-			list = append(list, "C13/P")
+		if p == "C13" || p == "C19" {
+			list = append(list, p+"/P")
 		}
 	}
 	for _, prop := range list {
